@@ -267,6 +267,11 @@ func (p *Prog) InModule(f *ssa.Function) bool {
 	if pk == nil && f.Parent() != nil {
 		return p.InModule(f.Parent())
 	}
+	if pk == nil {
+		if o := f.Origin(); o != nil && o != f {
+			pk = o.Package()
+		}
+	}
 	if pk == nil || pk.Pkg == nil {
 		return false
 	}
@@ -444,6 +449,10 @@ func (p *Prog) PkgOf(f *ssa.Function) string {
 		f = f.Parent()
 	}
 	if f.Pkg == nil {
+		// an instance of a generic function belongs to the package of the generic
+		if o := f.Origin(); o != nil && o != f && o.Pkg != nil {
+			return p.relPkg(o.Pkg.Pkg.Path())
+		}
 		return ""
 	}
 	return p.relPkg(f.Pkg.Pkg.Path())
